@@ -10,6 +10,10 @@ package operator
 // the snapshot byte-identical and must issue no successful write for a generated object
 // (write log from a client interceptor). Seven more fresh fake API servers (one of them
 // pre-populated with bystander objects) must render exactly the same objects as run 1.
+//
+// Spec-change histories (zz_verif_c42_history_test.go): every single-dimension edit of the
+// cluster resource on a server that already reconciled the predecessor spec must end in the
+// objects a fresh server renders for the successor.
 
 import (
 	"context"
@@ -99,8 +103,9 @@ func c42ApplyEnv(v c42EnvVariant) {
 }
 
 type c42Replay struct {
-	Spec vopSpec `json:"spec"`
-	Env  string  `json:"env"`
+	Spec vopSpec  `json:"spec"`
+	Env  string   `json:"env"`
+	Pred *vopSpec `json:"predecessor,omitempty"` // history section: the spec the cluster resource had before it was edited to Spec
 }
 
 type c42Write struct {
@@ -412,14 +417,18 @@ func TestVerifC42(t *testing.T) {
 	rep.SetInfo("listable_kinds", len(cx.kinds))
 	rep.Rule = "product of cluster-spec dimensions x operator-environment variants; per case: real Reconcile x3 on one fake API server (snapshot of every object of every listable kind after each run, " +
 		"incl. resourceVersion; write log from a client interceptor) + 7 fresh fake API servers (the last pre-populated with bystander topics/cluster/secret/configmap) rendered once each. " +
-		"Outcome signature = environment + digest of the rendered object set. Non-trivial: any spec dimension or the environment differs from the minimal spec (external etcd, nothing optional)."
+		"Outcome signature = environment + digest of the rendered object set. Non-trivial: any spec dimension or the environment differs from the minimal spec (external etcd, nothing optional). " +
+		"History section: every ordered pair (predecessor, successor) of specs that differ in exactly one dimension value (rest of the spec from a covering set of contexts), x every environment; per pair: predecessor reconciled until quiescent on one fake API server, " +
+		"cluster resource updated to the successor on the SAME server, reconciled twice (second must be a no-op), and every object a fresh server renders for the successor compared with the history server's object outside status and API-server bookkeeping metadata. " +
+		"Outcome signature = environment + objects the edit changes + leftover objects + stale fields. Non-trivial: the edit changes at least one rendered object (a stale value would be visible)."
 	rep.Assumptions = []string{
 		"controller-runtime fake client (over client-go's plain object tracker) stands for the API server: no admission defaulting, so update loops caused by server-side defaults are out of scope",
 		"S3 preflight skipped via KAFSCALE_OPERATOR_ETCD_SNAPSHOT_SKIP_PREFLIGHT as in the repository's own Reconcile test",
 		"spec.etcd.endpoints cases: live context, Publish writes to a per-worker embedded etcd (internal/testutil); managed-etcd and env-endpoint cases: context cancelled before Reconcile so the etcd health poll and Publish fail immediately (etcd unreachable branch); generated objects are all written before Publish",
 		"map-iteration nondeterminism inside renderers is sampled with 8 fresh renders per case, not enumerated",
 		"the cluster resource itself (status conditions carry wall-clock timestamps) and other kafscale.io resources are excluded from the comparison",
-		"history dependence across spec edits (A then B vs fresh B) is not judged: the statement quantifies over repeated reconciles of one spec",
+		"history section: 'depend only on the cluster resource and the environment' is read as: objects rendered for the CURRENT cluster resource are the same on an API server that reconciled an earlier version of the resource as on a fresh one; histories are single edits (one dimension value changed), not longer edit sequences",
+		"history section: objects that exist only on the history server (rendered for the predecessor and not rendered for the successor) are not judged, only counted (leftover_objects); status, resourceVersion, generation, managedFields, creationTimestamp, uid are not compared; the fake API server allocates nothing (no clusterIP / nodePort allocation), so no server-owned spec field needs to be excluded",
 	}
 
 	envs := c42Envs()
@@ -442,6 +451,21 @@ func TestVerifC42(t *testing.T) {
 		ep := ""
 		if rp.Spec.Etcd == "spec" {
 			ep = testutil.StartEmbeddedEtcd(t)[0]
+		}
+		if rp.Pred != nil {
+			if rp.Pred.Etcd == "spec" && ep == "" {
+				ep = testutil.StartEmbeddedEtcd(t)[0]
+			}
+			hres := c42RunHistory(cx, c42HistPair{Pred: *rp.Pred, Succ: rp.Spec, Edit: "replay"}, rp.Env, ep)
+			rep.Eval(1)
+			rep.Outcome(hres.sig, hres.nontrivial)
+			for _, v := range hres.viols {
+				rep.Violation(v.key, v.detail, rp)
+			}
+			if hres.note != "" {
+				rep.SetInfo("note", hres.note)
+			}
+			return
 		}
 		res := c42RunSpec(cx, rp.Spec, rp.Env, ep)
 		rep.Eval(1)
@@ -485,6 +509,8 @@ func TestVerifC42(t *testing.T) {
 	rep.SetInfo("workers", workers)
 
 	capped := false
+	hist := c42NewHistState(rep, thorough)
+	mainSampled := 0
 	for _, ev := range envs {
 		c42ApplyEnv(ev) // process-wide: environments are applied one after the other, cases of one environment run in parallel
 		var mine []int
@@ -527,9 +553,14 @@ func TestVerifC42(t *testing.T) {
 			for _, v := range res.viols {
 				rep.Violation(v.key, v.detail, c42Replay{Spec: sp, Env: ev.Name})
 			}
-			if res.nontrivial && rep.WantSample() && (j%97 == 5) {
+			if res.nontrivial && mainSampled < 4 && rep.WantSample() && (j%97 == 5) {
+				mainSampled++
 				rep.Sample(map[string]any{"spec": c42Describe(sp), "env": ev.Name, "outcome": res.sig})
 			}
+		}
+		// spec-change histories under the same (process-wide) environment
+		if hist.c42HistoryEnv(rep, cx, ev.Name, workers, endpoints, deadline) {
+			capped = true
 		}
 	}
 	if capped {
